@@ -10,6 +10,8 @@ case = {"kind": "hist", "cls": ..., "evs": [event, ...]} with events
   the caller --, os.kill(pid, 0) sees the PID iff vis (default true) and it is in the table: vis = false is a foreign procfs)
   ["waitprocs", o, vis] (psutil.wait_procs([o], timeout=0): is o reported gone?) ["iterstart"] (g = process_iter())
   ["iternext", g] (next(g))
+  ["copy", o, how] how in copy/deepcopy/pickle (copy.copy(o), copy.deepcopy(o), pickle.loads(pickle.dumps(o))): a new object
+  or the exception the tree under test raises; ["pdump", o] (pickle.dumps(o), kept) ["pload", o] (pickle.loads of it)
   ["set", o, [method, args...]]   method in signal/suspend/resume/terminate/kill/nice/ionice/rlimit/affinity
 Objects are numbered in order of creation (psutil.Process(pid) and objects first yielded by process_iter()).
 """
@@ -27,6 +29,24 @@ IMPORT_PID = 7      # the PID psutil believes it was imported under (os.getpid()
                     # the worker is then like a forked child, and PID 7 -- its "parent" -- is an ordinary, recyclable
                     # process of the fake kernel
 _real_getpid = []
+# which object protocols the tree under test supports for Process objects (probed by gen_tables; the default is the
+# unchanged tree: copy.copy gives a shallow copy, deepcopy / pickle raise TypeError because of the RLock)
+COPY_OK = {"copy": True, "deepcopy": False, "pickle": False}
+
+
+def probe_copy_support(impl_dir):
+    import json
+    import subprocess
+    code = ("import os, json, copy, pickle, psutil\np = psutil.Process(os.getpid())\nr = {}\n"
+            "for k, f in (('copy', copy.copy), ('deepcopy', copy.deepcopy), ('pickle', lambda x: pickle.loads(pickle.dumps(x)))):\n"
+            "    try:\n        r[k] = isinstance(f(p), psutil.Process)\n    except Exception:\n        r[k] = False\n"
+            "print(json.dumps(r))")
+    env = dict(os.environ, PYTHONPATH=impl_dir)
+    out = subprocess.run(["/venv/bin/python", "-c", code], env=env, stdout=subprocess.PIPE, stderr=subprocess.PIPE, text=True)
+    if out.returncode != 0:
+        raise RuntimeError("copy-support probe failed: " + out.stderr[-800:])
+    COPY_OK.update(json.loads(out.stdout.strip().splitlines()[-1]))
+    return dict(COPY_OK)
 
 
 def impl_setup(env):
@@ -76,6 +96,8 @@ class Shadow:
         self.gens = []      # [started, done, ls, pm]
         self.denied = set()
         self.exitc = set()  # objects whose exit code is cached
+        self.shared = set() # objects that share _proc with a copy
+        self.popens = set() # objects built by psutil.Popen (copy.copy of those ends in a RecursionError: never copied here)
         self.depth = {}     # object -> depth of open oneshot blocks
         self.cppid = set()  # objects whose ppid() is memoized in the current block
         self.pmap = {}
@@ -139,7 +161,9 @@ class Shadow:
         elif k == "new":
             self._new(e[1])
         elif k == "popen":
-            self._new(e[1], popen=True)
+            i = self._new(e[1], popen=True)
+            if i is not None:
+                self.popens.add(i)
         elif k == "race":
             if e[1] < len(self.objs):
                 x = self.objs[e[1]]
@@ -147,8 +171,15 @@ class Shadow:
                     self._isrun(e[1])
             for ke in e[3]:
                 self.apply(ke)
+        elif k in ("copy", "pload"):
+            how = e[2] if k == "copy" else "pickle"
+            if e[1] < len(self.objs) and COPY_OK[how] and self.depth.get(e[1], 0) == 0:
+                self.objs.append(list(self.objs[e[1]]))
+                if e[1] in self.exitc:
+                    self.exitc.add(len(self.objs) - 1)
+                self.shared.update((e[1], len(self.objs) - 1))
         elif k == "os_enter":
-            if e[1] < len(self.objs):
+            if e[1] < len(self.objs) and e[1] not in self.shared:
                 self.depth[e[1]] = self.depth.get(e[1], 0) + 1
         elif k == "os_exit":
             if self.depth.get(e[1], 0) > 0:
@@ -440,6 +471,42 @@ def gen_history(rng, n_events, flavour):
             emit(["eq", regular, x])
         emit(["isrun", x])
 
+    def copy_motif():
+        # a copy is another handle on the same incarnation: made while alive or from a STALE original (process gone,
+        # PID recycled, nobody has probed since), then ==/hash/is_running/signals/setters on the copy
+        o = some_obj(lambda i: sh.alive(i) and sh.depth.get(i, 0) == 0 and i not in sh.popens) if rng.random() < 0.85 \
+            else some_obj(lambda i: i not in sh.popens)
+        if o is None:
+            return
+        pid = sh.objs[o][0]
+        hows = ["copy", "copy", "deepcopy", "pickle"]
+        if rng.random() < 0.4:
+            emit(["pdump", o])
+        if rng.random() < 0.3:
+            emit(["copy", o, rng.choice(hows)])
+        stale = False
+        if pid in sh.table and rng.random() < 0.8:
+            if rng.random() < 0.3:
+                emit(["exit", pid])
+            emit(["reap", pid])
+            stale = True
+            if rng.random() < 0.8:
+                spawn_some(pid)
+        n0 = len(sh.objs)
+        emit(["copy", o, rng.choice(hows)])
+        if rng.random() < 0.5:
+            emit(["pload", o])
+        feats.add("copy-stale" if stale else "copy")
+        for c in range(n0, len(sh.objs)):
+            emit(["eq", c, o])
+            emit(["hasheq", o, c])
+            emit(rng.choice([["isrun", c], ["set", c, gen_setter(rng)], ["race", c, gen_setter(rng), []]]))
+            if pid in sh.table and rng.random() < 0.5:
+                emit(["new", pid])
+                emit(["eq", c, len(sh.objs) - 1])
+            emit(rng.choice([["set", c, gen_setter(rng)], ["isrun", c], ["hasheq", c, o]]))
+        emit(rng.choice([["isrun", o], ["set", o, gen_setter(rng)]]))
+
     def wait_motif():
         # wait() caches the exit code; afterwards the PID is recycled; then guarded calls
         o = some_obj(lambda i: sh.alive(i))
@@ -581,8 +648,10 @@ def gen_history(rng, n_events, flavour):
             blind_motif()
         elif objs_n == 0:
             continue
-        elif r < 0.455:
+        elif r < 0.447:
             wait_motif()
+        elif r < 0.462:
+            copy_motif()
         elif r < 0.49:
             oneshot_motif()
         elif r < 0.54:
@@ -658,10 +727,10 @@ def gen_history(rng, n_events, flavour):
         feats.add("popen-set-reused")
     if sh.objs and any(x[0] == IMPORT_PID for x in sh.objs) and ("set-reused" in feats or "set-reused-after-gone" in feats):
         feats.add("import-pid")
-    order = ["wait-foreign", "wait-then-reuse", "iter-overlap", "no-identity", "race-toctou", "race-window", "race-empty-window", "oneshot-set-reused", "popen-set-reused", "set-reused-after-gone", "set-reused", "pid0", "set-gone", "set-zombie", "eq-same-pid-other-proc", "isrun-reused",
+    order = ["copy-stale", "copy", "wait-foreign", "wait-then-reuse", "iter-overlap", "no-identity", "race-toctou", "race-window", "race-empty-window", "oneshot-set-reused", "popen-set-reused", "set-reused-after-gone", "set-reused", "pid0", "set-gone", "set-zombie", "eq-same-pid-other-proc", "isrun-reused",
              "clock", "eq-same-proc", "isrun-gone", "iter", "set-alive", "isrun-alive", "eq-other-pid"]
     if flavour == "c02":
-        order = ["wait-foreign", "no-identity", "iter-overlap", "popen-gone-child", "eq-other-pid-same-start", "eq-non-process", "eq-adjacent-ticks", "eq-same-pid-other-proc", "isrun-reused", "clock", "eq-same-proc", "isrun-gone", "set-reused", "iter",
+        order = ["copy-stale", "copy", "wait-foreign", "no-identity", "iter-overlap", "popen-gone-child", "eq-other-pid-same-start", "eq-non-process", "eq-adjacent-ticks", "eq-same-pid-other-proc", "isrun-reused", "clock", "eq-same-proc", "isrun-gone", "set-reused", "iter",
                  "isrun-alive", "eq-other-pid", "set-gone", "set-alive"]
     cls = next((f for f in order if f in feats), "trivial")
     return {"kind": "hist", "cls": cls, "evs": evs}
@@ -716,6 +785,13 @@ def _ev_term(e):
         return "EC (Wait %s %s)" % (G.nat(e[1]), G.bo(e[2] if len(e) > 2 else True))
     if k == "waitprocs":
         return "EC (WaitProcs %s %s)" % (G.nat(e[1]), G.bo(e[2] if len(e) > 2 else True))
+    if k == "copy":
+        return "EC (Copy %s %s %s)" % (G.nat(e[1]), {"copy": "HCopy", "deepcopy": "HDeep", "pickle": "HPickle"}[e[2]],
+                                      G.bo(COPY_OK[e[2]]))
+    if k == "pdump":
+        return "EC (PickleDump %s %s)" % (G.nat(e[1]), G.bo(COPY_OK["pickle"]))
+    if k == "pload":
+        return "EC (Copy %s HLoad %s)" % (G.nat(e[1]), G.bo(COPY_OK["pickle"]))
     if k == "iterstart":
         return "EC IterStart"
     if k == "iternext":
@@ -966,6 +1042,10 @@ def judge_history(case, coq, impl, spec_kinds, what):
         if isinstance(got[0], dict) and got[0].get("t") == "BindingChanged" and "bind" in spec_kinds:
             return Verdict("violation", "step %d %r: object %d, still held by the caller, was rebound: pid/identity changed"
                            % (i, e, got[0]["a"][0]))
+        if isinstance(got[0], dict) and got[0].get("t") == "Val" and isinstance(got[0]["a"][0], dict) \
+                and got[0]["a"][0].get("t") == "CopyIdentityDiffers":
+            return Verdict("violation", "step %d %r: the copy does not carry the identity of its original: %r"
+                           % (i, e, got[0]["a"][0]["a"]))
         if group_kill(got[1]):
             return Verdict("violation", "step %d %r: os.kill called with pid <= 0: %r" % (i, e, got[1]))
         allowed = coq["spec"][i]
@@ -989,6 +1069,20 @@ def _centi(x):
     if abs(f - Fraction(n, 100)) <= Fraction(1, 2 ** 48) * max(1, abs(f)):
         return T("Centi", n)
     return T("CentiInexact", repr(x))
+
+
+class StubSubprocessPopen:
+    """Stands for subprocess.Popen: a child with the given pid that nobody polls (returncode stays None)."""
+
+    def __init__(self, pid):
+        self.pid = pid
+        self.returncode = None
+
+    def poll(self):
+        return None
+
+    def wait(self, timeout=None):
+        raise AssertionError("wait() is not part of these histories")
 
 
 def impl_run(case, coq, env):
@@ -1089,6 +1183,33 @@ def impl_run(case, coq, env):
             return T("BadWaitProcs", repr((gone, alive)))
         return bool(gone)
 
+    pickled = {}
+
+    def do_copy(o, how):
+        import copy
+        import pickle
+        p = objs[o]
+        if how == "copy":
+            q = copy.copy(p)
+        elif how == "deepcopy":
+            q = copy.deepcopy(p)
+        elif how == "pickle":
+            q = pickle.loads(pickle.dumps(p))
+        else:
+            q = pickle.loads(pickled[o])
+        if not isinstance(q, psutil.Process) or q is p:
+            return T("NotACopy", repr(q))
+        if (q.pid, q._ident) != (p.pid, p._ident):
+            # a copy is another handle on the same process: it must carry the identity of its original
+            return T("CopyIdentityDiffers", [p.pid, repr(p._ident)], [q.pid, repr(q._ident)])
+        objs.append(q)
+        return T("Obj", len(objs) - 1)
+
+    def do_pdump(o):
+        import pickle
+        pickled[o] = pickle.dumps(objs[o])
+        return None
+
     def it_next(g):
         try:
             p = next(gens[g])
@@ -1135,19 +1256,6 @@ def impl_run(case, coq, env):
         p = psutil.Process(pid)
         objs.append(p)
         return len(objs) - 1
-
-    class StubSubprocessPopen:
-        """Stands for subprocess.Popen: a child with the given pid that nobody polls (returncode stays None)."""
-
-        def __init__(self, pid):
-            self.pid = pid
-            self.returncode = None
-
-        def poll(self):
-            return None
-
-        def wait(self, timeout=None):
-            raise AssertionError("wait() is not part of these histories")
 
     def new_popen(pid):
         real = psutil.subprocess.Popen
@@ -1269,6 +1377,12 @@ def impl_run(case, coq, env):
                 flush_pending()
             elif k == "eqother":
                 r = outcome(lambda: eq_other(e[1], e[2]), lambda b: b)
+            elif k == "copy":
+                r = outcome(lambda: do_copy(e[1], e[2]), lambda x: x)
+            elif k == "pdump":
+                r = outcome(lambda: do_pdump(e[1]), lambda x: x)
+            elif k == "pload":
+                r = outcome(lambda: do_copy(e[1], "load"), lambda x: x) if e[1] in pickled else T("OutOfModel")
             elif k in ("wait", "waitprocs"):
                 waitmode["on"], waitmode["vis"] = True, (e[2] if len(e) > 2 else True)
                 try:
